@@ -18,10 +18,11 @@ func resKey(r *corpus.Res) string {
 	if r.Fatal != "" || r.Panic != "" {
 		return "CRASH " + r.Panic + firstLine(r.Fatal)
 	}
+	ev := fmt.Sprintf(" end=%d events=%d:%s", r.End, len(r.Events), report.Hash(fmt.Sprint(r.Events)))
 	if r.OK {
-		return fmt.Sprintf("OK toks=%s tree=%s print=%q trace=%s", tokStrings(r.Toks), r.Shape, r.Sprint, traceString(r.Trace))
+		return fmt.Sprintf("OK toks=%s tree=%s print=%q trace=%s", tokStrings(r.Toks), r.Shape, r.Sprint, traceString(r.Trace)) + ev
 	}
-	return fmt.Sprintf("FAIL max=%v msg=%q", r.Max, r.Err)
+	return fmt.Sprintf("FAIL max=%v msg=%q", r.Max, r.Err) + ev
 }
 
 func c12(c *ctx) {
